@@ -106,6 +106,23 @@ def check_refusals(acc: Acc, tier: str, seed: int) -> None:
                 except Exception as ex:  # noqa: BLE001
                     got = f"{type(ex).__name__}: {ex}"
                 acc.violate("refuse", {"term": cls}, case, "RuntimeError", got, f"{cls}.tsukamoto did not refuse")
+    # the special wrapper terms: whatever they declare must match what they do
+    ramp = fl.Ramp("r", 0.0, 1.0)
+    for term in (fl.Activated(ramp, 0.5, fl.Minimum()), fl.Activated(fl.Triangle("t", 0.0, 0.5, 1.0), 0.5, None),
+                 fl.Aggregated("a", 0.0, 1.0, fl.Maximum(), [fl.Activated(ramp, 0.5, fl.Minimum())])):
+        acc.case((type(term).__name__, type(getattr(term, "term", None)).__name__), nontrivial=True)
+        acc.cls("refusals")
+        try:
+            got = term.tsukamoto(0.25)
+            refused = False
+        except RuntimeError:
+            got, refused = "RuntimeError", True
+        except Exception as ex:  # noqa: BLE001
+            got, refused = f"{type(ex).__name__}: {ex}", False
+        if bool(term.is_monotonic()) == refused:
+            acc.violate("declares-vs-does", {"term": type(term).__name__}, {"term": type(term).__name__, "params": [], "height": 1.0, "y": 0.25},
+                        "monotonic terms invert, the others refuse", [bool(term.is_monotonic()), str(got)],
+                        f"{type(term).__name__} declares is_monotonic()={term.is_monotonic()} but tsukamoto gives {got}")
     # Linear / Function (registered terms that need an engine)
     for term in (fl.Linear("l", [1.0]), fl.Function("f", "x")):
         acc.case((type(term).__name__,), nontrivial=True)
